@@ -32,7 +32,7 @@ pub fn canon(sim: &Sim) -> String {
     for t in &snap.tokens {
         let _ = write!(s, "T{}[c{} q{:?} i", t.token, t.connecting as u8, t.waiters_closed);
         for i in &t.idle {
-            let age_half = (i.age.as_secs() * 2) / super::sim::T_SECS;
+            let age_half = (i.age.as_millis() as u64 * 2) / sim.cfg.t_ms;
             let _ = write!(s, "({},{},{},{})", i.conn, i.open as u8, i.shareable as u8, age_half);
         }
         s.push(']');
